@@ -39,7 +39,7 @@ F10_SIG = "kern-rule-mixes-R-and-L-bidi-glyphs"
 REP = [("A", 0x41), ("V", 0x56), ("T", 0x54), ("a", 0x61), ("o", 0x6F), ("period", 0x2E), ("hyphen", 0x2D), ("one", 0x31),
        ("two", 0x32), ("a-cy", 0x430), ("be-cy", 0x431), ("alpha", 0x3B1), ("alef-ar", 0x627), ("beh-ar", 0x628),
        ("one-ar", 0x661), ("alef-hb", 0x5D0), ("bet-hb", 0x5D1), ("ka-deva", 0x915), ("acutecomb", 0x301),
-       ("A.alt", None), ("V.sc", None), ("dash.case", None),
+       ("A.alt", None), ("V.sc", None), ("dash.case", None), ("period.alt", None),
        ("ge-cy", 0x433), ("te-cy", 0x442), ("Gamma", 0x393), ("Tau", 0x3A4), ("comma", 0x2C),
        # glyphs of the Arabic script without a strong bidi class (ET / ON): kerned among themselves they are still right-to-left
        ("percent-ar", 0x66A), ("perthousand-ar", 0x609), ("poeticverse-ar", 0x60E),
@@ -54,9 +54,11 @@ FN = ("fun c : (kern_in * list obs_entry * list krule) => let '(i, obs, pairs) :
       "(if list_eqb rule_eqb (model_pairs i) pairs then 1 else 0) + (if spec_C05 i obs then 2 else 0)")
 
 
-def gen(rng):
+def gen(rng, neutral_alt=False):
     n = rng.randint(5, 10)
     fam = rng.random()
+    if neutral_alt:
+        fam = 0.99
     if fam < 0.35:     # single script family (Latin + common)
         pool = [r for r in REP if r[0] in ("A", "V", "T", "a", "o", "period", "hyphen", "one", "two", "acutecomb", "A.alt", "V.sc")]
     elif fam < 0.5:    # three left-to-right scripts whose glyphs share groups (look-alikes): script buckets overlap in chains
@@ -70,6 +72,13 @@ def gen(rng):
     items = rng.sample(pool, min(n, len(pool)))
     names = [x[0] for x in items]
     forced = []
+    if neutral_alt:
+        # a font of both directions in which a bidi-neutral glyph has an unencoded alternate reachable by substitution only:
+        # the alternate is neutral like its base, so pairs with it are kerned on either side, in either direction
+        for extra in ("A", "alef-ar", "period", "period.alt"):
+            if extra not in names:
+                items.append(next(r for r in REP if r[0] == extra)); names.append(extra)
+        forced = [(("period.alt", "A"), Fr(-30)), (("alef-ar", "period.alt"), Fr(-20)), (("A", "period.alt"), Fr(-15))]
     if 0.5 <= fam < 0.7:
         # always: a right-to-left letter kerned against an Inherited-script glyph on the SECOND side and on the first side
         rtl = [x for x in names if x in ("alef-ar", "beh-ar", "alef-hb", "bet-hb")]
@@ -127,6 +136,10 @@ def gen(rng):
                "contours": []} for nm, u in items]
     if fea and "A.alt" in names and "A" in names and rng.random() < 0.5:
         fea += "feature salt { sub A by A.alt; } salt;\n"
+    if neutral_alt:
+        if not fea:
+            fea = "languagesystem DFLT dflt;\nlanguagesystem latn dflt;\nlanguagesystem arab dflt;\n"
+        fea += "feature ss01 { sub period by period.alt; } ss01;\n"
     return {"glyphs": glyphs, "groups": groups, "kerning": kerning, "features": fea, "lib": lib,
             "quantization": rng.choice([1, 1, 1, 5, 10]),
             # the writer's other option: kerning lookups that do NOT skip marks (mark pairs are then kerned in the same lookups)
@@ -296,7 +309,9 @@ def explore(ctx):
     rng = ctx.subrng("kern")
     cases, meta = [], []
     for i in range(ctx.budget(70, 600)):
-        desc = gen(rng)
+        desc = gen(rng, neutral_alt=(i % 7 == 3))
+        if i % 7 == 3:
+            ctx.klass("both directions + unencoded alternate of a neutral glyph, kerned")
         lib = rng.choice(["ufoLib2", "defcon"])
         case = {"font": jsonable({k: (v if k != "kerning" else {"%s|%s" % kk: vv for kk, vv in v.items()}) for k, v in desc.items()}),
                 "lib": lib}
